@@ -24,7 +24,7 @@ pub struct Cfg {
     /// initial clock phase in ms (publish instants fall on .0 / .5 / .9 s)
     pub phase_ms: u64,
     /// session OTI (inherited by catalogue object 2 and used for the FDT itself): 0 = No-Code (1424, 64),
-    /// 1 = RS GF(2^8) under-specified (512, 32, parity 2), 2 = RS GF(2^8) (256, 32, parity 2)
+    /// 1 = RS GF(2^8) under-specified (512, 32, parity 2), 2 = RS GF(2^8) (256, 32, parity 2), 3 = Raptor (16, 64, parity 1)
     #[serde(default)]
     pub sess_scheme: u8,
     /// 1 = object 0 under Raptor, object 3 under RS GF(2^8) under-specified
@@ -45,6 +45,7 @@ pub fn sess_oti(k: u8) -> OtiSpec {
     match k {
         1 => OtiSpec::new(Scheme::Rs28Us, 512, 32, 2, true),
         2 => OtiSpec::new(Scheme::Rs28, 256, 32, 2, true),
+        3 => OtiSpec::new(Scheme::Raptor, 16, 64, 1, true),
         _ => OtiSpec::new(Scheme::NoCode, 1424, 64, 0, true),
     }
 }
@@ -632,9 +633,9 @@ pub fn configs(thorough: bool) -> Vec<Cfg> {
     if !thorough {
         // quick: every value of every axis, every duration once, plus the wrap and sub-second-phase corners
         for (i, d) in durations.iter().enumerate() {
-            v.push(Cfg { full_fdt: i % 2 == 0, start_id: starts[i % 3], duration_s: *d, fdt_cenc: if i % 4 < 2 { 0 } else { 3 }, phase_ms: [0, 500, 900][i % 3], sess_scheme: (i % 3) as u8, cat_var: (i % 2) as u8 });
+            v.push(Cfg { full_fdt: i % 2 == 0, start_id: starts[i % 3], duration_s: *d, fdt_cenc: if i % 4 < 2 { 0 } else { 3 }, phase_ms: [0, 500, 900][i % 3], sess_scheme: (i % 4) as u8, cat_var: (i % 2) as u8 });
         }
-        v.push(Cfg { full_fdt: true, start_id: starts[2], duration_s: 5, fdt_cenc: 0, phase_ms: 900, sess_scheme: 0, cat_var: 0 });
+        v.push(Cfg { full_fdt: true, start_id: starts[2], duration_s: 5, fdt_cenc: 0, phase_ms: 900, sess_scheme: 3, cat_var: 0 });
         v.push(Cfg { full_fdt: false, start_id: starts[2], duration_s: 3600, fdt_cenc: 3, phase_ms: 0, sess_scheme: 1, cat_var: 1 });
         v.push(Cfg { full_fdt: true, start_id: 1, duration_s: 10, fdt_cenc: 3, phase_ms: 900, sess_scheme: 2, cat_var: 0 });
         v.push(Cfg { full_fdt: false, start_id: 0, duration_s: 1, fdt_cenc: 0, phase_ms: 500, sess_scheme: 0, cat_var: 1 });
@@ -649,7 +650,7 @@ pub fn configs(thorough: bool) -> Vec<Cfg> {
                         // every pair of axis values still occurs
                         let k = full_fdt as u64 + (start_id as u64 % 3) + fdt_cenc as u64 + phase_ms / 400 + duration_s % 5;
                         if k % 3 == 0 {
-                            v.push(Cfg { full_fdt, start_id, duration_s, fdt_cenc, phase_ms, sess_scheme: ((duration_s + start_id as u64) % 3) as u8, cat_var: ((phase_ms / 400 + fdt_cenc as u64) % 2) as u8 });
+                            v.push(Cfg { full_fdt, start_id, duration_s, fdt_cenc, phase_ms, sess_scheme: ((duration_s + start_id as u64) % 4) as u8, cat_var: ((phase_ms / 400 + fdt_cenc as u64) % 2) as u8 });
                         }
                     }
                 }
